@@ -135,7 +135,7 @@ CHECKS = {
     "C16": dict(
         test="TestC16",
         quick=dict(procs=6, checks=1500),
-        thorough=dict(procs=32, checks=10000, timeout=1500),
+        thorough=dict(procs=32, checks=6000, timeout=1800),
         rule="rapid draws (type, value incl. holder bytes, extra buffer space 0/1/64/4096; a second type incl. nocopy fields with a well-formed or mutated message for the decode half, decoded once from a guarded buffer and once from the binary field of a previously decoded envelope, optionally with a failing call in between); "
              "non-trivial = value reaches a map or pointer and extra>0; distinct by hash(type signature, canonical output, extra)",
         technique="property-based testing (rapid): deep snapshot (lifted value + address/len/cap of every pointer, slice, string, map header) before/after each call, guarded-arena oracle for bytes beyond n, repeat-encode canonical equality, input-buffer immutability on success and error",
@@ -179,7 +179,7 @@ CHECKS = {
     ),
     "C06": dict(
         test="TestC06",
-        quick=dict(procs=6, checks=250, timeout=900),
+        quick=dict(procs=8, checks=300, timeout=900),
         thorough=dict(procs=32, checks=1000, timeout=2400, race=True),
         env={"GODEBUG": "clobberfree=1"},
         rule="rapid draws a history of 8-18 steps: decode (random type, anonymous or from the named universe, one string/binary field in three declared nocopy; messages with strings of 0..600 bytes, scalar lists of alignment 1/2/4/8 up to 90 elements so that cumulative sizes cross the 2048-byte block and single objects the 256-byte large-object threshold, pointer-bearing lists/maps), "
